@@ -24,6 +24,9 @@ use viewspec::*;
 fn run_scenario(line: &str) -> Vec<String> {
     let sx = sexpr::parse(line);
     let l = sx.list();
+    if l[0].atom() == "resource" {
+        return panic::catch_unwind(AssertUnwindSafe(|| run_resource(&sx))).unwrap_or_else(|_| vec!["PANIC".to_string()]);
+    }
     assert_eq!(l[0].atom(), "seq");
     let mut out = Vec::new();
     for r in &l[1..] {
@@ -52,6 +55,78 @@ fn run_scenario(line: &str) -> Vec<String> {
         }
     }
     out
+}
+
+/// C15: `(resource (STEP ...))` with STEP = (write V) | (complete K) -- a resource whose fetch reads a dependency
+/// signal; fetch number K (in start order) completes with the dependency value it was started for.
+/// Output: one line per step (step 0 = after creation): `value=<none|v> loading=<0|1> started=<n>`.
+fn run_resource(sx: &sexpr::Sx) -> Vec<String> {
+    use futures::channel::oneshot;
+    use std::cell::RefCell;
+    use std::rc::Rc;
+    let steps: Vec<sexpr::Sx> = sx.list()[1].list().to_vec();
+    let rt = tokio::runtime::Builder::new_current_thread().build().unwrap();
+    let local = tokio::task::LocalSet::new();
+    local.block_on(&rt, async move {
+        let mut out = Vec::new();
+        let senders: Rc<RefCell<Vec<Option<oneshot::Sender<i64>>>>> = Rc::new(RefCell::new(Vec::new()));
+        let started: Rc<RefCell<Vec<i64>>> = Rc::new(RefCell::new(Vec::new()));
+        let mut dep = None;
+        let mut res = None;
+        let (s2, st2) = (senders.clone(), started.clone());
+        let root = create_root(|| {
+            let d = create_signal(0i64);
+            dep = Some(d);
+            res = Some(create_isomorphic_resource(on(d, move || {
+                let v = d.get();
+                let (tx, rx) = oneshot::channel::<i64>();
+                s2.borrow_mut().push(Some(tx));
+                st2.borrow_mut().push(v);
+                async move { rx.await.unwrap_or(-1) }
+            })));
+        });
+        let (dep, res) = (dep.unwrap(), res.unwrap());
+        let settle = || async {
+            for _ in 0..24 {
+                tokio::task::yield_now().await;
+            }
+        };
+        let observe = |out: &mut Vec<String>| {
+            let v = root.run_in(|| untrack(|| res.get_clone_untracked()));
+            let l = root.run_in(|| untrack(|| res.is_loading()));
+            out.push(format!(
+                "value={} loading={} started={}",
+                v.map(|x| x.to_string()).unwrap_or_else(|| "none".into()),
+                l as u8,
+                started.borrow().len()
+            ));
+        };
+        settle().await;
+        observe(&mut out);
+        for st in steps {
+            let st = st.list();
+            match st[0].atom() {
+                "write" => {
+                    let v: i64 = st[1].num();
+                    root.run_in(|| dep.set(v));
+                }
+                "complete" => {
+                    let k: usize = st[1].num();
+                    let tx = senders.borrow_mut().get_mut(k).and_then(|s| s.take());
+                    if let Some(tx) = tx {
+                        let v = started.borrow()[k];
+                        let _ = tx.send(v);
+                    }
+                }
+                x => panic!("bad step {x}"),
+            }
+            settle().await;
+            observe(&mut out);
+        }
+        root.dispose();
+        settle().await;
+        out
+    })
 }
 
 fn main() {
